@@ -1051,6 +1051,73 @@ func (in *Interp) monitorCond(clean bool) *Term {
 	return ts.Not(any)
 }
 
+func (in *Interp) retained(v Value, seen map[interface{}]bool, depth int) *Term {
+	ts := in.ts
+	zero := ts.Const(64, 0)
+	if depth > 12 {
+		return zero
+	}
+	switch x := v.(type) {
+	case Pointer:
+		if x.P == nil || seen[x.P] {
+			return zero
+		}
+		seen[x.P] = true
+		return in.retained(*x.P, seen, depth+1)
+	case *StructV:
+		if x == nil {
+			return zero
+		}
+		sum := zero
+		for _, f := range x.F {
+			sum = ts.Add(sum, in.retained(f, seen, depth+1))
+		}
+		return sum
+	case IfaceV:
+		if x.T == nil {
+			return zero
+		}
+		return in.retained(x.V, seen, depth+1)
+	case SliceV:
+		if x.O == nil {
+			return zero
+		}
+		if isScalarType(x.O.elemT) {
+			return x.Len
+		}
+		if !x.Len.IsConst() || !x.Off.IsConst() {
+			in.unsupported("zzRetained: slice of non-scalars with symbolic length")
+		}
+		sum := zero
+		for k := x.Off.Val; k < x.Off.Val+x.Len.Val && k < uint64(len(x.O.E)); k++ {
+			sum = ts.Add(sum, in.retained(x.O.E[k], seen, depth+1))
+		}
+		return sum
+	case StrV:
+		if x.O == nil {
+			return ts.Const(64, uint64(len(x.C)))
+		}
+		return x.Len
+	case *MapV:
+		if x == nil || seen[x] {
+			return zero
+		}
+		seen[x] = true
+		sum := zero
+		for _, e := range x.E {
+			part := ts.Add(in.retained(e.K, seen, depth+1), in.retained(e.V, seen, depth+1))
+			// fixed per-entry cost so that entries with small keys still count
+			part = ts.Add(part, ts.Const(64, 16))
+			if e.Present != nil {
+				part = ts.Ite(e.Present, part, zero)
+			}
+			sum = ts.Add(sum, part)
+		}
+		return sum
+	}
+	return zero
+}
+
 // ---------- prelude (harness) intrinsics ----------
 
 func (in *Interp) prelude(fn *ssa.Function, name string, args []Value) (Value, bool) {
@@ -1162,6 +1229,10 @@ func (in *Interp) prelude(fn *ssa.Function, name string, args []Value) (Value, b
 		}
 		p := a0.(Pointer)
 		return ts.Bool(in.lockHeld[p.P]), true
+	case "zzRetained":
+		// sum of the lengths of all byte slices / strings reachable from the argument
+		// (slices of other elements are followed; maps count keys and values)
+		return in.retained(args[0], map[interface{}]bool{}, 0), true
 	case "zzChanClosed":
 		ch, _ := args[0].(*ChanV)
 		return ts.Bool(ch != nil && ch.closed), true
